@@ -240,8 +240,15 @@ func (c *conformanceServiceServer) BidiStream(
 
 			if responseDefinition != nil {
 				headerMD := grpcutil.ConvertProtoHeaderToMetadata(responseDefinition.ResponseHeaders)
-				// Immediately send the headers on the stream so that metadata can be read by the client
-				if err := stream.SendHeader(headerMD); err != nil {
+				if fullDuplex {
+					// Immediately send the headers on the stream so that metadata can be read by the client
+					if err := stream.SendHeader(headerMD); err != nil {
+						return err
+					}
+				} else if err := stream.SetHeader(headerMD); err != nil {
+					// We can only send immediately for full-duplex. For half-duplex operation, we
+					// must let client complete its upload before trying to send anything, so the
+					// headers go out with the first response (or with the status).
 					return err
 				}
 
